@@ -133,6 +133,8 @@ func checkC07(c *Ctx) {
 	}
 	r.Count("shape x scenario evaluated", n)
 
+	r.Rule("R07g", "scenario messages: the TypeScript declaration has exactly the top-level properties the documented mapping puts on the wire", 5)
+	crossScenarioKeys(c, "R07g", "ts")
 	c07Markers(c)
 	c07Siblings(c)
 	c07Names(c)
